@@ -135,7 +135,14 @@ class Models:
         if isinstance(idx, SymArr) and idx.dtype == "bool":
             mask = idx
             if isinstance(v, MaskedRef):
-                raise Unsupported("masked-to-masked assignment @%s" % line)
+                # x[m1] = y[m2]: cell-wise when both masks select the same cells (side obligation)
+                xs = [fresh("x", z3.IntSort()) for _ in range(arr.rank)]
+                same = z3.ForAll(xs, z3.Implies(V.z3bool(arr.inbounds(xs)),
+                                                V.z3bool(mask.get(xs)) == V.z3bool(v.mask.get(xs))))
+                ex.oblige("masks-select-same-cells", same, "bounds", line)
+                src = v.arr.snapshot()
+                ex.arr_bulk(arr, lambda xs_: src.get(xs_), region=lambda xs_: V.z3bool(mask.get(xs_)))
+                return
             if isinstance(v, SymArr):
                 raise Unsupported("masked assignment of array @%s" % line)
             root = arr
@@ -203,7 +210,13 @@ class Models:
         if op == "@":
             return _dot(ex, a, b)
         if isinstance(a, MaskedRef) or isinstance(b, MaskedRef):
-            raise Unsupported("arithmetic on masked selection")
+            # elementwise arithmetic commutes with selecting the same cells
+            m = a if isinstance(a, MaskedRef) else b
+            if isinstance(a, MaskedRef) and isinstance(b, MaskedRef):
+                raise Unsupported("arithmetic between two masked selections")
+            fa = a.arr if isinstance(a, MaskedRef) else a
+            fb = b.arr if isinstance(b, MaskedRef) else b
+            return MaskedRef(self.array_binop(ex, op, fa, fb), m.mask)
         arrs = [x for x in (a, b) if isinstance(x, SymArr)]
         shape = arrs[0].shape
         rank = max(x.rank for x in arrs)
@@ -393,6 +406,9 @@ class Models:
                     except Exception:
                         return Opaque("str." + name)
                 return Builtin("str." + name, smeth)
+        if V.sort_of(obj) is not None or obj is None:
+            # python scalars / None have no such attribute (e.g. `val.shape` in the scalar branch of a try)
+            raise RaiseSignal("AttributeError", line=line)
         raise Unsupported("attribute %s of %r @%s" % (name, type(obj).__name__, line))
 
 
@@ -627,6 +643,11 @@ def _install(M):
                 if nm == "numpy.ndarray" and isinstance(x, SymArr):
                     return True
             if isinstance(tt, ModRef) and tt.dotted in ("numpy.ndarray",) and isinstance(x, SymArr):
+                return True
+            if isinstance(tt, ModRef) and tt.dotted in ("numbers.Real", "numbers.Number", "numbers.Complex") \
+                    and V.sort_of(x) in ("int", "real"):
+                return True
+            if isinstance(tt, ModRef) and tt.dotted in ("numbers.Number", "numbers.Complex") and V.sort_of(x) == "cx":
                 return True
         return False
 
@@ -887,6 +908,9 @@ def _install(M):
                          lambda xs: ite(compare("==", xs[0], xs[1]), snap.get([xs[0]]), 0))
 
     M.table["numpy.float64"] = ModRef("numpy.float64")
+    for cname in ("pi", "c", "e", "hbar", "k", "h", "epsilon_0", "N_A"):
+        M.table["scipy.constants." + cname] = z3.Real("c_" + cname)
+    M.table["scipy.constants.physical_constants"] = Opaque("physical_constants")
     M.table["numpy.pi"] = V.const_pi()
     M.table["math.pi"] = V.const_pi()
 
